@@ -37,7 +37,7 @@ type wCase struct {
 	WordSp    int    `json:"wordsp"`   // 26.6 units
 	LetterSp  int    `json:"lettersp"` // 26.6 units
 	Driver    int    `json:"driver"`   // 0 WrapParagraph 1 Prepare+WrapNextLine
-	Iter      int    `json:"iter"`     // 0 library slice iterator 1 harness iterator
+	Iter      int    `json:"iter"`     // 0 library slice iterator 1 harness iterator 2 one library iterator object reused through Reset
 }
 
 func (c *wCase) String() string {
@@ -77,6 +77,10 @@ func clusterAdvance(rs []rune) (adv, width fixed.Int26_6) {
 		case isWhitespaceRune(r):
 			a += 5 << 6
 		case r == 0x0301:
+		case r == 'i':
+			a += 4<<6 + 32 // narrow and wide letters of the long, proportional paragraphs
+		case r == 'W':
+			a += 14<<6 + 48
 		default:
 			a += 10<<6 + 16 // 10.25 px
 		}
